@@ -279,3 +279,98 @@ Example C01_cutoff_hmm_detection_path :
   cutoff_life 10 (1, 1) [(false, (3, 2)); (true, (3, 2))] = [10000; 15000; 15000] /\
   cutoff_life 10 (1, 1) [(false, (3, 2)); (false, (3, 2))] = [10000; 15000; 22500].
 Proof. repeat split; vm_compute; reflexivity. Qed.
+
+(* ====================================================================================
+   MINSCORE ON THE BOUNDARY.  "minscore(p, s) additionally needs bitscore >= s".  Bit scores are floats
+   and may be NEGATIVE (weak HMMer hits; DynamicHit accepts any value, its default is 0.0); the rule
+   grammar accepts the threshold 0 (ScoreCondition refuses only negative thresholds).  Scores are
+   carried doubled in Z (half-integers exact), thresholds are the rule's integers: sign, zero and
+   the comparison >= are exact, nothing is clamped at 0.  [reach cx g o] := o = g or o is closer than
+   the cutoff.
+   ==================================================================================== *)
+
+(* a plain minscore is met exactly when some hit OF THAT PROFILE with bitscore >= s is on the gene or
+   on a gene in range - a single hit has to reach the threshold, whatever its sign and whatever
+   the threshold (0 included) *)
+Theorem C01_minscore_meaning : forall cx, results_known cx -> forall p s g,
+  met (detect cx (Score false p s) g) = true <->
+  exists o h, reach cx g o /\ In h (hits_of cx o) /\ fst h = p /\ 2 * s <= snd h.
+Proof. exact detect_score_iff. Qed.
+Print Assumptions C01_minscore_meaning.
+
+(* every hit of p in reach is below the threshold (for instance: threshold 0, only negative bit
+   scores): minscore is false, `not minscore` true, and p is not a reason *)
+Theorem C01_minscore_all_below : forall cx, results_known cx -> forall neg p s g,
+  (forall o h, reach cx g o -> In h (hits_of cx o) -> fst h = p -> snd h < 2 * s) ->
+  met (detect cx (Score neg p s) g) = neg /\ matches (detect cx (Score neg p s) g) = [].
+Proof. exact detect_score_all_below. Qed.
+Print Assumptions C01_minscore_all_below.
+
+(* one sufficient hit decides, whatever the other hits of the same profile on the same gene score
+   (several hits per (gene, profile), mixed signs) *)
+Theorem C01_minscore_one_suffices : forall cx, results_known cx -> forall neg p s g o h,
+  reach cx g o -> In h (hits_of cx o) -> fst h = p -> 2 * s <= snd h ->
+  met (detect cx (Score neg p s) g) = negb neg.
+Proof. exact detect_score_one_suffices. Qed.
+Print Assumptions C01_minscore_one_suffices.
+
+(* lowering the threshold keeps a minscore true *)
+Theorem C01_minscore_monotone : forall cx p s1 s2 g local, s1 <= s2 ->
+  holds cx (Score false p s2) g local = true -> holds cx (Score false p s1) g local = true.
+Proof. exact holds_score_monotone. Qed.
+Print Assumptions C01_minscore_monotone.
+
+(* minscore(p, 0) means the plain name p when no bit score is negative ... *)
+Theorem C01_minscore_zero_is_name_nonneg : forall cx, (forall o h, In h (hits_of cx o) -> 0 <= snd h) ->
+  forall neg p g local, holds cx (Score neg p 0) g local = holds cx (Single neg p) g local.
+Proof. exact holds_score_zero_is_name. Qed.
+Print Assumptions C01_minscore_zero_is_name_nonneg.
+
+(* ... and NOT in general: a hit scoring -1 carries the name but does not reach the threshold 0 *)
+Theorem C01_minscore_zero_is_name_refuted : exists cx p g,
+  results_known cx /\ (forall o h, In h (hits_of cx o) -> fst h = p -> -2 <= snd h) /\
+  holds cx (Score false p 0) g false <> holds cx (Single false p) g false.
+Proof. exact score_zero_name_witness. Qed.
+Print Assumptions C01_minscore_zero_is_name_refuted.
+
+(* the boundary behaviour on concrete layouts (profiles q=0 p=1; cutoff 10000; FOCUS=0 [1000,2000),
+   NEAR=1 [4000,5000) in range, FAR=2 [40000,41000) out of range with a good hit of p):
+   [weak_ctx]: NEAR's only hit of p scores -1; [score_ctx hs own]: NEAR carries the hits hs of p,
+   FOCUS q (30) and the hits own of p *)
+Definition score_ctx (near_hits own_hits : list Z) : ctx :=
+  mkCtx 10000 None [(0, [mkPart 1000 2000 1]); (1, [mkPart 4000 5000 1]); (2, [mkPart 40000 41000 1])]
+        [(0, (0, 60) :: map (pair 1) own_hits); (1, map (pair 1) near_hits); (2, [(1, 160)])].
+Definition q_and_minscore (neg : bool) (s : Z) : cond := Group false [IAnd [Single false 0; Score neg 1 s]].
+Example C01_minscore_boundary :
+  results_known weak_ctx /\
+  (* `minscore(p, 0)` is false for a gene whose only hit of p scores -1, asked at that gene and at its neighbour *)
+  detect weak_ctx (Score false 1 0) 1 = mkRes false [] [] /\
+  detect weak_ctx (Score false 1 0) 0 = mkRes false [] [] /\
+  detect weak_ctx (Score true 1 0) 0 = mkRes true [] [] /\
+  detect weak_ctx (q_and_minscore false 0) 0 = mkRes false [0] [] /\
+  anchors weak_ctx (q_and_minscore false 0) 0 = false /\
+  anchors weak_ctx (q_and_minscore true 0) 0 = true /\
+  (* the name itself is there *)
+  detect weak_ctx (Single false 1) 0 = mkRes true [] [(1, [1])] /\
+  (* -4.5 and -0.5 on the neighbour; -2 on the gene itself *)
+  detect (score_ctx [-9; -1] []) (q_and_minscore false 0) 0 = mkRes false [0] [] /\
+  detect (score_ctx [] [-4]) (q_and_minscore false 0) 0 = mkRes false [0] [] /\
+  detect (score_ctx [] [-4]) (q_and_minscore true 0) 0 = mkRes true [0] [] /\
+  (* exactly 0.0 (the DynamicHit default) reaches the threshold 0, on the neighbour and on the gene (then a reason) *)
+  detect (score_ctx [0] []) (q_and_minscore false 0) 0 = mkRes true [0] [] /\
+  detect (score_ctx [] [0]) (q_and_minscore false 0) 0 = mkRes true [0; 1] [] /\
+  (* 0.0 and 0.5 do not reach the threshold 1, 1.0 does *)
+  detect (score_ctx [0; 1] []) (q_and_minscore false 1) 0 = mkRes false [0] [] /\
+  detect (score_ctx [0; 2] []) (q_and_minscore false 1) 0 = mkRes true [0] [] /\
+  (* mixed signs: -4.5 and 12 against the thresholds 10, 12, 13 *)
+  detect (score_ctx [-9; 24] []) (q_and_minscore false 10) 0 = mkRes true [0] [] /\
+  detect (score_ctx [-9; 24] []) (q_and_minscore false 12) 0 = mkRes true [0] [] /\
+  detect (score_ctx [24; -9] []) (q_and_minscore false 13) 0 = mkRes false [0] [] /\
+  (* the good hit outside of the cutoff never counts; a huge score does *)
+  detect (score_ctx [] []) (q_and_minscore false 0) 0 = mkRes false [0] [] /\
+  detect (score_ctx [2199023255553] []) (q_and_minscore false 1099511627776) 0 = mkRes true [0] [] /\
+  detect (score_ctx [2199023255551] []) (q_and_minscore false 1099511627776) 0 = mkRes false [0] [].
+Proof.
+  split; [intros o Ho; cbn in Ho; cbn; tauto|].
+  repeat split; vm_compute; reflexivity.
+Qed.
